@@ -292,6 +292,7 @@ def gen_c01(tier, rng):
     cases = []
     for zid, data in zones:
         cases.append("zload %s" % zid)
+        cases.append("cert %s" % zid)
         inst, offs, rule = probe_instants(data, tier, rng)
         for t in sorted(set(inst)):
             cases.append("bt %s %d" % (zid, t))
@@ -307,6 +308,7 @@ def gen_c02(tier, rng):
         inst, offs, rule = probe_instants(data, tier, rng, max_trans=16)
         if rule:
             offs = sorted(set(offs + [rule[0], rule[1]]))
+        cases.append("cert %s" % zid)
         for cs in civil_probes(sorted(set(inst)), offs, tier, rng):
             cases.append("mt %s %s" % (zid, fmt_cs(cs)))
     return cases, zones
